@@ -8,4 +8,7 @@ open Gen
 /-- the user future (`state`) is dropped before the completion sender (`task_finished`). -/
 theorem syncFuture_drop_order : syncFutureFields = ["state", "scheduler_future", "task_finished"] := by decide
 
+/-- cancellation is carried by the field drop order alone: there is no `Drop` impl that could act first -/
+theorem syncFuture_no_custom_drop : syncFutureCustomDrop = false := rfl
+
 end Desync
